@@ -102,6 +102,99 @@ def cases(ctx):
         k += 1
         if ctx.mine(k):
             yield c
+    # ---- integer-like operand types (numpy scalars as produced by application code that computes its operands) ----
+    for flav, m in (("vanilla", "set"), ("vanilla", "rot_x"), ("nv", "rot_y"), ("vanilla", "array"), ("vanilla", "store"),
+                    ("vanilla", "crot_z"), ("vanilla", "load"), ("reids", "set")):
+        if m not in isa.TABLE[flav]:
+            continue
+        kinds = isa.TABLE[flav][m][1]
+        for pos in codec.leaf_positions(kinds):
+            if pos[2] == isa.R:
+                continue
+            for which in ("out", "in"):
+                for v in _leaf_values(pos[2], which):
+                    for ty in _np_types_for(v):
+                        k += 1
+                        if ctx.mine(k):
+                            yield {"kind": "direct", "flavour": flav, "mnemonic": m, "pos": list(pos), "value": v, "vtype": ty,
+                                   "values": codec.set_leaf(codec.rand_values(rng, kinds), pos, v), "expect": which}
+    for axis in "XYZ":
+        for n, d, e in ((300, 1, "out"), (256, 0, "out"), (1, 256, "out"), (-1, 2, "out"), (2**32 + 3, 1, "out"), (3, 2, "in"), (255, 255, "in")):
+            for ty in ("int64", "int32", "uint16") if n >= 0 else ("int64", "int32"):
+                k += 1
+                if ctx.mine(k):
+                    yield {"kind": "sdk-rot", "axis": axis, "n": n, "d": d, "vtype": ty, "expect": e}
+    for v, e in ((2**31, "out"), (2**32 + 5, "out"), (-(2**31) - 1, "out"), (2**40 + 1, "out"), (9, "in"), (-(2**31), "in")):
+        for kind in ("sdk-array-init", "sdk-add"):
+            k += 1
+            if ctx.mine(k):
+                yield {"kind": kind, "value": v, "vtype": "int64", "expect": e}
+    # ---- template operands instantiated with values the field cannot hold ------------------------------------
+    for flav in ("vanilla", "nv"):
+        for m in sorted(x for x in isa.TABLE[flav] if x.startswith("rot_") or x.startswith("crot_")):
+            kinds = isa.TABLE[flav][m][1]
+            for pos in codec.leaf_positions(kinds):
+                if pos[2] != isa.I8:
+                    continue
+                for which in ("out", "in"):
+                    for v in _leaf_values(isa.I8, which):
+                        for ty in (None, "int64"):
+                            if ty and not -2**63 <= v < 2**63:
+                                continue
+                            k += 1
+                            if ctx.mine(k):
+                                yield {"kind": "template", "flavour": flav, "mnemonic": m, "pos": list(pos), "value": v, "vtype": ty,
+                                       "values": codec.set_leaf(codec.rand_values(rng, kinds), pos, v), "expect": which}
+    # ---- random magnitudes, several offending fields, and offending operands deep inside a longer program ---------
+    for _ in range(ctx.n(300, 60000)):
+        flav = rng.choice(["vanilla", "nv", "reids"])
+        names = sorted(x for x in isa.TABLE[flav] if codec.leaf_positions(isa.TABLE[flav][x][1]))
+        nins = rng.choice([1, 1, 2, 5, 12, 30])
+        instrs = [[m, codec.rand_values(rng, isa.TABLE[flav][m][1])] for m in (rng.choice(names) for _ in range(nins))]
+        expect = "out" if rng.random() < 0.8 else "in"
+        bad = []
+        if expect == "out":
+            for _ in range(rng.choice([1, 1, 1, 2, 3])):
+                i = rng.randrange(nins)
+                pos = rng.choice(codec.leaf_positions(isa.TABLE[flav][instrs[i][0]][1]))
+                v = _rand_out(rng, pos[2])
+                instrs[i][1] = codec.set_leaf(instrs[i][1], pos, v)
+                bad.append([i, list(pos)])
+        yield {"kind": rng.choice(["program-direct", "program-text"]), "flavour": flav, "instrs": instrs, "bad": bad, "expect": expect}
+
+
+def _np_types_for(v):
+    out = []
+    for ty, lo, hi in (("int64", -2**63, 2**63 - 1), ("int32", -2**31, 2**31 - 1), ("uint16", 0, 65535), ("uint64", 0, 2**64 - 1), ("int16", -2**15, 2**15 - 1)):
+        if lo <= v <= hi:
+            out.append(ty)
+    return out[:3]
+
+
+def _rand_out(rng, kind):
+    """A random value outside the field's range: just outside, a random bit pattern above it, or far outside."""
+    if kind == isa.R:
+        return [rng.choice("RCQM"), rng.choice([16, 16 + rng.randrange(16), rng.randrange(32, 256), rng.randrange(256, 2**16), -rng.randrange(1, 17)])]
+    if kind == isa.I8:
+        return rng.choice([256 + rng.randrange(256), rng.randrange(256, 2**16), rng.randrange(2**16, 2**33), -rng.randrange(1, 257),
+                           -rng.randrange(257, 2**20), 256 * rng.randrange(1, 2**24) + rng.randrange(256)])
+    hi = rng.choice([2**31 + rng.randrange(2**16), rng.randrange(2**31, 2**32), 2**32 * rng.randrange(1, 2**20) + rng.randrange(2**32),
+                     rng.randrange(2**32, 2**70)])
+    return hi if rng.random() < 0.6 else -hi - 1
+
+
+def _typed(v, ty):
+    if ty is None:
+        return v
+    import numpy as np
+    return getattr(np, ty)(v)
+
+
+def _typed_values(case):
+    if not case.get("vtype"):
+        return case["values"]
+    pos = case["pos"]
+    return codec.set_leaf(case["values"], (pos[0], pos[1], pos[2]), _typed(case["value"], case["vtype"]))
 
 
 def _judge(ctx, case, produce, expected_instrs=None, header=None, flav="vanilla"):
@@ -113,6 +206,8 @@ def _judge(ctx, case, produce, expected_instrs=None, header=None, flav="vanilla"
     except Exception as e:
         if out:
             ctx.count("out_of_range_rejected")
+        elif case.get("vtype"):
+            ctx.count("typed_in_range_rejected_loudly")   # a numpy scalar refused with an error: loud, so not this property's concern
         else:
             ctx.fail(case, f"in-range twin is rejected: {type(e).__name__}: {str(e)[:120]}")
         return
@@ -147,12 +242,54 @@ def run_case(ctx, case):
     from netqasm.lang.parsing.text import parse_text_subroutine
     kind = case["kind"]
     out = case["expect"] == "out"
+    if kind in ("program-direct", "program-text"):
+        flav, instrs = case["flavour"], case["instrs"]
+        if kind == "program-direct":
+            def produce():
+                return bytes(codec.mk_subroutine(flav, [1, 0], 0, instrs))
+        else:
+            text = PRE + "\n".join(isa.fmt_instr(flav, m, v) for m, v in instrs)
+
+            def produce():
+                return bytes(parse_text_subroutine(text, flavour=codec.flavour_obj(flav)))
+        ctx.count("programs_with_offending_operand" if out else "programs_in_range")
+        _judge(ctx, case, produce, expected_instrs=[[m, v] for m, v in instrs], flav=flav)
+        ctx.case(case, nontrivial=out)
+        return
+    if kind == "template":
+        flav, m, vals, pos = case["flavour"], case["mnemonic"], case["values"], case["pos"]
+        want = [[m, vals]]
+
+        from netqasm.lang.operand import Template
+        from netqasm.lang.subroutine import Subroutine
+        fobj = codec.flavour_obj(flav)
+        kinds = isa.TABLE[flav][m][1]
+        ops = [codec.mk_operand(kd, v) for kd, v in zip(kinds, codec.set_leaf(vals, pos, 1))]
+        ops[pos[0]] = Template("t")
+        try:
+            templated = fobj.get_instr_by_name(m).from_operands(ops)
+        except Exception:
+            ctx.count("template_slot_not_supported")      # this instruction shape takes no template in that slot
+            return ctx.case(case, False)
+
+        def produce():
+            sub = Subroutine(netqasm_version=(1, 0), app_id=0, instructions=[templated])
+            sub.instantiate(0, {"t": _typed(case["value"], case.get("vtype"))})
+            return bytes(sub)
+        ctx.count("template_instantiations")
+        _judge(ctx, case, produce, expected_instrs=want, flav=flav)
+        ctx.case(case, nontrivial=out)
+        return
     if kind in ("direct", "text"):
         flav, m, vals = case["flavour"], case["mnemonic"], case["values"]
         want = [[m, vals]]
         if kind == "direct":
+            tv = _typed_values(case)
+            if case.get("vtype"):
+                ctx.count("numpy_typed_operands")
+
             def produce():
-                return bytes(codec.mk_subroutine(flav, [1, 0], 0, [[m, vals]]))
+                return bytes(codec.mk_subroutine(flav, [1, 0], 0, [[m, tv]]))
         else:
             text = PRE + isa.fmt_instr(flav, m, vals)
 
@@ -198,6 +335,8 @@ def run_case(ctx, case):
         except Exception as e:
             if out:
                 ctx.count("out_of_range_rejected")
+            elif case.get("vtype"):
+                ctx.count("typed_in_range_rejected_loudly")
             else:
                 ctx.fail(case, f"in-range SDK twin is rejected: {type(e).__name__}: {str(e)[:160]}")
             return
@@ -216,16 +355,16 @@ def run_case(ctx, case):
 
         def prog(conn):
             q = Qubit(conn)
-            getattr(q, "rot_" + case["axis"])(n=case["n"], d=case["d"])
+            getattr(q, "rot_" + case["axis"])(n=_typed(case["n"], case.get("vtype")), d=_typed(case["d"], case.get("vtype")))
         sdk(prog, lambda descr, subs: any(d[0] == mn and d[1][1:] == [case["n"], case["d"]] for d in descr))
     elif kind == "sdk-array-init":
         def prog(conn):
-            conn.new_array(2, init_values=[case["value"], 1])
+            conn.new_array(2, init_values=[_typed(case["value"], case.get("vtype")), 1])
         sdk(prog, lambda descr, subs: any(d[0] == "set" and d[1][1] == case["value"] for d in descr))
     elif kind == "sdk-add":
         def prog(conn):
             a = conn.new_array(1, init_values=[1])
-            a.get_future_index(0).add(case["value"])
+            a.get_future_index(0).add(_typed(case["value"], case.get("vtype")))
         sdk(prog, lambda descr, subs: any(d[0] == "set" and d[1][1] == case["value"] for d in descr))
     elif kind == "sdk-loop":
         def prog(conn):
